@@ -313,7 +313,7 @@ func c18CheckUniform(c c18UniCase) engine.Result {
 // ---- long streams (sizes beyond the tree/uniform scenarios; buffered readers)
 
 var c18LongStream = func() []byte {
-	out := make([]byte, 120*188)
+	out := make([]byte, 1401*188)
 	x := uint64(0xD1B54A32D192ED03)
 	for i := range out {
 		x ^= x << 13
@@ -438,12 +438,14 @@ func init() {
 		},
 		&engine.Enum[c18LongCase]{
 			Name: "readfrom-long-streams",
-			Rule: "streams of {21,22,23,44,100} packets (thorough: every count 1..110) + tail {0,1,100} bytes, reader chunk sizes {1,100,187,188,189,376,4000,4096,100000} directly and through bufio readers of size {16,4096,4100}, EOF separate or attached: beyond the sizes of the exhaustive scenarios (default buffer sizes are not multiples of 188, so short reads appear only after ~22 packets)",
+			Rule: "streams of {21,22,23,44,100} packets (thorough: every count 1..110) and {255,256,257,348,349,350,1400} packets (around 2^8 packets / 2^16 bytes, and 263 KB) + tail {0,1,100} bytes, reader chunk sizes {1,100,187,188,189,376,4000,4096,100000} directly and through bufio readers of size {16,4096,4100}, EOF separate or attached: beyond the sizes of the exhaustive scenarios (default buffer sizes are not multiples of 188, so short reads appear only after ~22 packets)",
 			Gen: func(r *engine.Run, emit func(c18LongCase)) {
 				counts := []int{21, 22, 23, 44, 100}
 				if r.Thorough() {
 					counts = seq(1, 110)
 				}
+				// next to 2^8 packets and 2^16 bytes (348 packets = 65424 bytes, 349 = 65612), and far beyond
+				counts = append(counts, 255, 256, 257, 348, 349, 350, 1400)
 				for _, p := range counts {
 					for _, t := range []int{0, 1, 100} {
 						for _, ch := range []int{1, 100, 187, 188, 189, 376, 4000, 4096, 100000} {
